@@ -99,6 +99,22 @@ def install_scalar(w, alg):
         return h
     for op, nm in names.items(): w.hooks[nm] = fop(op)
 
+def install_predicates(w, alg):
+    """isZero / isOne / isNegone / equal on field words: the run forks on the residue-class condition (an integer-level path condition)"""
+    def cond_hook(fname, spec):
+        def h(it, args):
+            vals = [w.load(p, I(64)) for p in args]
+            if all(is_c(v) for v in vals): return NotImplemented
+            zs = [alg.toz3(cls_of(v, fname)) for v in vals]
+            c = spec(*zs); w.contracts_used.add('Goldilocks::' + fname)
+            return int(it.branch(c))
+        return h
+    E = '@_ZN10Goldilocks%sERKNS_7ElementE'
+    w.hooks[E % '6isZero'] = cond_hook('isZero', lambda a: a % P == 0)
+    w.hooks[E % '5isOne'] = cond_hook('isOne', lambda a: (a - 1) % P == 0)
+    w.hooks[E % '8isNegone'] = cond_hook('isNegone', lambda a: (a + 1) % P == 0)
+    w.hooks['@_ZN10Goldilocks5equalERKNS_7ElementES2_'] = cond_hook('equal', lambda a, b: (a - b) % P == 0)
+
 def install_lanes(w, alg, ctx, cfg):
     """lane-level contracts of the AVX2 / AVX512 kernels (class level); operand assumptions are discharged on concrete operands"""
     from . import kern
@@ -107,12 +123,17 @@ def install_lanes(w, alg, ctx, cfg):
     T = lanes.table(n == 8)
     def rdv(p): return w.load_bytes(p, 8 * n)
     def wrv(p, vals): w.store_bytes(p, 8 * n, [wrap(v) for v in vals])
+    w.pre_failures = []
     def reg(name, f, pre=None):
         fn = lanes.find(ctx, cfg, name, T[name], n)
         def h(it, args):
             ins = [rdv(p) for p in args[1:]]
             if all(all_concrete(v) for v in ins): return NotImplemented
-            if pre: pre(ins)
+            if pre:
+                try: pre(ins)
+                except Unsupported as e:
+                    if not getattr(w, 'soft_pre', False): raise
+                    w.pre_failures.append(dict(kernel=name, fn=fn, msg=str(e), ins=[[v.cls if isinstance(v, FV) else v for v in vec] for vec in ins]))
             wrv(args[0], [f(*[cls_of(v[i], name) for v in ins]) for i in range(n)]); w.contracts_used.add('Goldilocks::' + name); return None
         w.hooks[fn] = h
     def small(ins):
